@@ -11,6 +11,7 @@ import time
 import traceback
 
 VERIF = os.path.dirname(os.path.dirname(os.path.abspath(__file__)))
+OUT = os.environ.get('PYVC_OUT') or VERIF     # where evidence/ and replays/ are written (self-test children use a scratch dir)
 sys.path.insert(0, VERIF)
 
 import z3  # noqa: E402
@@ -54,7 +55,7 @@ def match_finding(prop, o, findings):
 
 def write_replay(prop, o, registry, repo_root):
     """Replay file for a failed obligation. Returns (path, reproduced: bool|None)."""
-    d = os.path.join(VERIF, 'replays', prop)
+    d = os.path.join(OUT, 'replays', prop)
     os.makedirs(d, exist_ok=True)
     safe = o.id.replace('/', '__').replace('<', 'lt').replace('>', 'gt')
     path = os.path.join(d, safe + '.py')
@@ -136,6 +137,43 @@ def write_replay(prop, o, registry, repo_root):
         except Exception as e:
             open(path, 'a').write(f'# replay failed to run: {e}\n')
     return path, reproduced
+
+
+def self_test(prop, repo_root):
+    """Thorough tier only, evidence only (never changes the verdict): every stored seeded change of this property
+    (seeded/<prop>*/patch.diff) is applied to a scratch copy of the tree under check and the quick check is run on
+    it; it must report a violation.  A patch that no longer applies (the tree moved on) is recorded as stale."""
+    import shutil
+    import tempfile
+    out = []
+    sdir = os.path.join(VERIF, 'seeded')
+    for name in sorted(os.listdir(sdir)) if os.path.isdir(sdir) else []:
+        patch = os.path.join(sdir, name, 'patch.diff')
+        if not name.startswith(prop) or not os.path.exists(patch):
+            continue
+        scratch = tempfile.mkdtemp(prefix='pyvc_selftest_', dir=os.environ.get('TMPDIR') or '/var/tmp')
+        try:
+            shutil.copytree(os.path.join(repo_root, 's3transfer'), os.path.join(scratch, 's3transfer'),
+                            ignore=shutil.ignore_patterns('__pycache__'))
+            a = subprocess.run(['git', 'apply', '--whitespace=nowarn', patch], cwd=scratch, capture_output=True, text=True)
+            if a.returncode != 0:
+                out.append({'seed': name, 'result': 'stale (patch does not apply to this tree)'})
+                continue
+            env = dict(os.environ, PYVC_REPO=scratch, PYVC_OUT=os.path.join(scratch, 'out'), PYVC_SELFTEST_CHILD='1')
+            t0 = time.time()
+            p = subprocess.run([sys.executable, '-m', 'pyvc.cli', prop, '--tier', 'quick'], cwd=VERIF, env=env,
+                               capture_output=True, text=True, timeout=1800)
+            failing = sorted(set(l.split('failed obligation: ')[1].split(' ')[0].split('#')[0]
+                                 for l in p.stdout.splitlines() if 'failed obligation: ' in l))
+            out.append({'seed': name, 'result': {1: 'detected', 0: 'MISSED', 2: 'undecided', 3: 'checker error'}.get(p.returncode, str(p.returncode)),
+                        'exit': p.returncode, 'failing_obligations': failing[:6], 'wall_s': round(time.time() - t0, 1)})
+        except Exception as e:
+            out.append({'seed': name, 'result': f'self-test could not run: {type(e).__name__}: {e}'})
+        finally:
+            shutil.rmtree(scratch, ignore_errors=True)
+    for r in out:
+        print(f'SELF-TEST {prop} {r["seed"]}: {r["result"]}')
+    return out
 
 
 def run_property(prop, tier, seed):
@@ -303,14 +341,19 @@ def run_property(prop, tier, seed):
         'wall_s': round(time.time() - t0, 3),
         'violations': len(violations) + len(bounded.get('violations', [])),
     }
+    extra_errors = extra_info.pop('checker_errors', []) if isinstance(extra_info, dict) else []
+    for e in extra_errors:
+        print(f'CHECKER-ERROR {e}')
     ev['coverage'].update(extra_info)
-    os.makedirs(os.path.join(VERIF, 'evidence'), exist_ok=True)
-    json.dump(ev, open(os.path.join(VERIF, 'evidence', f'{prop}.json'), 'w'), indent=1, default=str)
+    if tier == 'thorough' and not os.environ.get('PYVC_SELFTEST_CHILD'):
+        ev['coverage']['self_test_on_stored_seeded_changes'] = self_test(prop, repo.root)
+    os.makedirs(os.path.join(OUT, 'evidence'), exist_ok=True)
+    json.dump(ev, open(os.path.join(OUT, 'evidence', f'{prop}.json'), 'w'), indent=1, default=str)
     print(f'{prop}: {disch}/{n} obligations discharged, {len(failed)} failed, {len(known)} known, '
           f'{len(undecided)} undecided, {len(out_of_reach)} out of reach, {ev["wall_s"]}s')
     if violations or bounded.get('violations'):
         return 1, ev
-    if errors or n == 0 or vacuous_roots:
+    if errors or n == 0 or vacuous_roots or extra_errors:
         return 3, ev
     if undecided or out_of_reach:
         return 2, ev
